@@ -38,7 +38,7 @@ def nodes_of(doc):
     return secs, props
 
 
-DEP_MODES = ["existing-match", "existing-text-match", "existing-mismatch", "missing", "subsection-name",
+DEP_MODES = ["int-vs-float", "float-vs-int", "existing-match", "existing-text-match", "existing-mismatch", "missing", "subsection-name",
              "int-target", "empty-target", "multi-target", "value-none", "self"]
 CARDS = [(None, 1), (1, None), (2, 3), (1, 1), (0, 2), (3, None), (None, 4), (2, 2)]
 
@@ -73,7 +73,7 @@ def gen_muts(rng, doc, n):
                          rng.choice(["sec_cardinality", "prop_cardinality"]), enc(rng.choice(CARDS))])
         elif kind == "bad-values" and props:
             muts.append(["bad-values", rng.randrange(len(props)),
-                         rng.choice(["int", "float", "boolean", "date", "time", "datetime", "2-tuple"])])
+                         rng.choice(["int", "float", "boolean", "date", "time", "datetime", "2-tuple", "12-tuple", "wide-ok"])])
         elif kind == "near-dup-siblings":
             muts.append(["near-dup-siblings", rng.randrange(10 ** 6), rng.randrange(len(NEAR_DUPS)), rng.random() < 0.3])
         elif kind == "empty-name" and (secs or props):
@@ -173,6 +173,13 @@ def apply_muts(doc, muts):
                         odml.Section("dep_sub", "t", parent=par, oid=oid())
                     p.dependency = par.sections[0].name
                     p.dependency_value = "x"
+                elif mode in ("int-vs-float", "float-vs-int"):
+                    # a dependency value that equals a value of the target as a number of the other numeric type
+                    nm = "dep_" + mode
+                    if nm not in par.properties:
+                        odml.Property(nm, values=[5.0, 2.5] if mode == "int-vs-float" else [9, 3], parent=par, oid=oid())
+                    p.dependency = nm
+                    p.dependency_value = 5 if mode == "int-vs-float" else 9.0
                 elif mode in ("int-target", "empty-target", "multi-target"):
                     vals = {"int-target": [1, 2], "empty-target": None, "multi-target": ["a", "b", "c"]}[mode]
                     nm = "dep_" + mode
@@ -194,8 +201,16 @@ def apply_muts(doc, muts):
                     o.val_cardinality = dec(m[4])
             elif name == "bad-values":
                 p = props[m[1] % len(props)]
+                if m[2] == "wide-ok":
+                    # no invalidation: a consistent tuple Property with more than nine elements, built through the API
+                    w = odml.Property("wide_tuple_%d" % counter[0], dtype="12-tuple", oid=oid(), parent=p.parent,
+                                      values=["(" + ";".join(str(i) for i in range(12)) + ")"])
+                    vexp.append(vm.bad_values(w, False))
+                    applied.append("wide-ok")
+                    continue
+                vexp[:] = [v for v in vexp if v["objs"][0] != id(p)]      # (a helper Property may be invalidated later on)
                 p._dtype = m[2]                           # private: the public API refuses this (C05)
-                p._values = [["a", "b", "c"]] if m[2] == "2-tuple" else ["certainly-not-%s" % m[2]]
+                p._values = {"2-tuple": [["a", "b", "c"]], "12-tuple": [["a"]]}.get(m[2], ["certainly-not-%s" % m[2]])
                 vexp.append(vm.bad_values(p, True))
             elif name == "empty-name":
                 pool = secs if m[1] == "sec" else props
